@@ -190,7 +190,160 @@ def _roundtrip(alg_i, enc_i, curve_i, ser, has_zip, pt, aad, apu, hdr_where, key
         ch = info["choice"]
         if len(ch.calls) != 1 or [k.kid for k in ch.calls[0]] != ["r1", "r2"]:
             return False
+    # C12: the epk header and everything else that was encoded is free of private material
+    merged = out.recipients[0].headers() if ser else out.protected
+    if "epk" in merged and any(m in merged["epk"] for m in ice.PRIVATE_NAMES):
+        return False
+    if not keyset and not conformance(env, info, ser, pt, aad if ser else None, has_zip, apu):
+        return False
+    key = info["key"]
+    if ice.leak_scan(env, info["tok"], [key.raw_value] if key.key_type == "oct" else [], ["r1", "r2", "zz", "snd"] + ["gen%d" % i for i in range(8)]):
+        return False
     return fresh_ok(env, info, 1)
+
+
+RSA_PAD = {"RSA1_5": ("PKCS1v15",), "RSA-OAEP": ("OAEP", "sha1", "sha1", None), "RSA-OAEP-256": ("OAEP", "sha256", "sha256", None)}
+PBES2 = {"PBES2-HS256+A128KW": ("sha256", 16), "PBES2-HS384+A192KW": ("sha384", 24), "PBES2-HS512+A256KW": ("sha512", 32)}
+HASH_OF_ENC = {"A128CBC-HS256": "sha256", "A192CBC-HS384": "sha384", "A256CBC-HS512": "sha512"}
+
+
+def lp(b):
+    return len(b).to_bytes(4, "big") + b
+
+
+def conformance(env, info, ser, pt, aad, has_zip, apu):
+    """C08: the operands handed to the primitives while PRODUCING are those of RFC 7516/7518 (+ drafts)"""
+    alg, encname, kind = info["alg"], info["enc"], info["kind"]
+    tok = info["tok"]
+    key = info["key"]
+    n_draws = info["ndraws_enc"]
+    calls = [c for c in env.calls]
+    # ---- content encryption operands
+    if ser == 0:
+        segs = tok.split(".")
+        pseg, ekseg, ivseg, ctseg, tagseg = [x.encode() for x in segs]
+        want_aad = pseg
+    else:
+        pseg = tok["protected"].encode()
+        want_aad = pseg + ((b"." + tok["aad"].encode()) if aad else b"")
+        if bool(aad) != ("aad" in tok):
+            return False
+        if aad and env.b64decode(tok["aad"].encode()) != aad:
+            return False
+        ivseg, ctseg, tagseg = tok["iv"].encode(), tok["ciphertext"].encode(), tok["tag"].encode()
+    # the protected segment is the b64 of the compact, ASCII JSON of the protected header
+    ptext = env.b64decode(pseg)
+    dumped = [i for i, (v, t) in enumerate(env.js_made) if t.encode() == ptext]
+    if len(dumped) != 1:
+        return False
+    kw = env.dumps_kwargs
+    if not any(k.get("separators") == (",", ":") and k.get("ensure_ascii", True) is True for k in kw):
+        return False
+    enc_calls = [c for c in calls if c["kind"] in ("gcm_encrypt", "cbc_encrypt", "chacha_encrypt") and not (c["kind"] == "gcm_encrypt" and c["aad"] is None)][:1]
+    if len(enc_calls) != 1:
+        return False
+    e = enc_calls[0]
+    body = pt
+    if has_zip:
+        zs = env.of("zcompress")
+        if len(zs) != 1 or zs[0]["data"] != pt:
+            return False
+        body = zs[0]["body"]                 # raw DEFLATE: zlib header (2) and Adler-32 (4) stripped
+    if e["pt"] != body or env.b64decode(ivseg) != e["iv"] or env.b64decode(ctseg) != e["ct"]:
+        return False
+    cek = e["key"] if kind != "cbc" else None
+    if kind == "cbc":
+        macs = [c for c in calls if c["kind"] == "hmac"]
+        if len(macs) < 1:
+            return False
+        m = macs[0]
+        n = info["cekbits"] // 16
+        al = (8 * len(want_aad)).to_bytes(8, "big")
+        if m["hash"] != HASH_OF_ENC[encname] or m["msg"] != want_aad + e["iv"] + e["ct"] + al:
+            return False
+        tag = env.b64decode(tagseg)
+        if tag != ice.mac_tag(m["hash"], m["key"], m["msg"])[:n]:
+            return False
+        # key split: MAC key first, encryption key second, both halves of ONE cek
+        mk, ek_ = m["key"], e["key"]
+        if len(mk) != n or len(ek_) != n:
+            return False
+        if isinstance(mk, bytes) and isinstance(ek_, bytes):
+            cek = mk + ek_
+        else:
+            if getattr(mk, "cut", None) is None or mk.cut[1:] != (0, n) or ek_.cut[1:] != (n, 2 * n) or mk.parts != ek_.parts:
+                return False
+            cek = None
+    else:
+        if e["aad"] != want_aad or env.b64decode(tagseg) != e["tag"]:
+            return False
+    # ---- key management operands
+    hdr = {}
+    if ser == 0:
+        hdr = env.js_made[dumped[0]][0]
+        ek = env.b64decode(ekseg) if ekseg else b""
+    else:
+        hdr = dict(env.js_made[dumped[0]][0])
+        hdr.update(tok.get("unprotected") or {})
+        r0 = tok["recipients"][0] if "recipients" in tok else tok
+        hdr.update(r0.get("header") or {})
+        ek = env.b64decode(r0["encrypted_key"].encode()) if r0.get("encrypted_key") else b""
+    if alg in DIRECT and ek:
+        return False
+    if alg == "dir":
+        return cek is None or cek == key.raw_value
+    if alg in RSA_PAD:
+        rs = env.of("rsa_encrypt")
+        return len(rs) == 1 and rs[0]["padding"] == RSA_PAD[alg] and rs[0]["out"] == ek and (cek is None or rs[0]["pt"] == cek)
+    if alg[0] == "A" and alg.endswith("GCMKW"):
+        ks = [c for c in calls if c["kind"] == "gcm_encrypt" and c["aad"] is None]
+        if len(ks) != 1 or ks[0]["key"] != key.raw_value or ks[0]["ct"] != ek or (cek is not None and ks[0]["pt"] != cek):
+            return False
+        return len(ks[0]["iv"]) == 12 and env.b64decode(hdr["iv"].encode()) == ks[0]["iv"] and env.b64decode(hdr["tag"].encode()) == ks[0]["tag"]
+    ws = env.of("wrap")
+    if alg[0] == "A" and alg.endswith("KW"):
+        return len(ws) == 1 and ws[0]["key"] == key.raw_value and ws[0]["out"] == ek and (cek is None or ws[0]["cek"] == cek)
+    if alg in PBES2:
+        ps = env.of("pbkdf2")
+        h, n = PBES2[alg]
+        if len(ps) < 1 or len(ws) != 1:         # (the consumer side of the round trip derives the key a second time)
+            return False
+        p = ps[0]
+        salt_in = env.b64decode(hdr["p2s"].encode())
+        return p["hash"] == h and p["length"] == n and p["salt"] == alg.encode() + b"\x00" + salt_in and p["iterations"] == hdr["p2c"] and \
+            p["key"] == key.raw_value and ws[0]["key"] == p["out"] and ws[0]["out"] == ek
+    # ECDH-ES / ECDH-1PU
+    ks = env.of("concatkdf")
+    xs = [x for x in env.of("exchange")][: (2 if alg.startswith("ECDH-1PU") else 1)]
+    if len(ks) < 1:
+        return False
+    k = ks[0]
+    gen = [d for d in env.draws[:n_draws] if d["source"] in ("ec.generate_private_key", "okp.generate")]
+    if len(gen) != 1:
+        return False
+    ze = ice.Opaque("ecdh", frozenset([gen[0]["value"], "r1"]))
+    if alg.startswith("ECDH-1PU"):
+        zs = ice.Opaque("ecdh", frozenset(["snd", "r1"]))
+        want_z = ice.Opaque("cat", ze, zs)                      # Z = Ze || Zs
+    else:
+        want_z = ze
+    direct = "+" not in alg
+    name = encname if direct else alg
+    bits = info["cekbits"] if direct else int(alg.split("+A")[1][:3])
+    pu = b"Alice" if apu else b""
+    pv = b"Bob" if apu else b""
+    info_bytes = lp(name.encode()) + lp(pu) + lp(pv) + bits.to_bytes(4, "big")
+    if alg.startswith("ECDH-1PU") and not direct:
+        tagv = env.b64decode(tagseg)
+        info_bytes += lp(bytes(tagv))
+    if k["hash"] != "sha256" or k["length"] != bits // 8 or k["z"] != want_z or k["otherinfo"] != info_bytes:
+        return False
+    epk = hdr.get("epk")
+    if not isinstance(epk, dict) or epk.get("crv") != key.curve_name:
+        return False
+    if direct:
+        return True
+    return len(ws) == 1 and ws[0]["key"] == k["out"] and ws[0]["out"] == ek
 
 
 def fresh_ok(env, info, n_messages):
